@@ -310,6 +310,15 @@ class NPProxy:
                 v = x[idx]; v = ite(v < lo, lo, v); v = ite(v > hi, hi, v); out[idx] = v
             return out
         return _np.clip(x, lo, hi)
+    def bincount(self, x, weights=None, minlength=0):
+        if _has_sym(x) and weights is None:
+            # the length of the result depends on the values: concretise every (integer valued) element by forking over its feasible values
+            vals = []
+            for v in _np.asarray(x, dtype=object).ravel():
+                if isinstance(v, Sym): vals.append(EX.choose(z3.ToInt(v.t), -1, 4096))
+                else: vals.append(int(v))
+            return _np.bincount(_np.array(vals, dtype=_np.int64), minlength=minlength)
+        return _np.bincount(x, weights, minlength)
     INTS_AS_OBJECTS = False
 def _mixed_ufunc(name):
     """object arrays that mix Sym with plain python numbers (np.where(valid, quot, 0)): apply the method / the numpy function per element"""
